@@ -107,3 +107,84 @@ Theorem C03_retry_identity_unfixed_refuted :
     next_state (o_type prev) = Building /\ q_retry q = true /\ get_outcome_unfixed27 max n prev q co <> prev.
 Proof. exact retry_identity_unfixed_refuted. Qed.
 Print Assumptions C03_retry_identity_unfixed_refuted.
+
+(* ---- the executable properties of Check/C03_check.v are the property (judge soundness) ---- *)
+Require Import Verif.Check.C03_check Verif.Proofs.JudgeSoundC03P.
+
+(* sink C03_hist, one round. An ARBITRARY outcome o that passes step_ok satisfies, with o in the place of
+   get_outcome: the clause of C03_edges (edge_P is that clause verbatim: C03_judge_clauses_are_the_theorems), of
+   C03_wait_exit, of C03_build_carries_cursor, of C03_retry_identity and of C03_progress. *)
+Theorem C03_judge_step_sound : forall max prev r o,
+  step_ok max prev r o = true ->
+  edge_P prev (fst r) (snd r) o /\
+  (next_state (o_type prev) = Waiting -> forall c, snd r = Some c ->
+     let upd := exists k s cur, In (k, s) (o_off prev) /\ alookup k (c_off c) = Some cur /\ s <> cur in
+     (o_type o = T_transmitted <-> upd) /\
+     (o_type o = T_failed <-> ~ upd /\ (max <= add64 (o_attempts prev) 1)%N) /\
+     (o_type o = T_inflight <-> ~ upd /\ (add64 (o_attempts prev) 1 < max)%N) /\
+     (o_type o = T_inflight -> o_off o = o_off prev /\ o_attempts o = add64 (o_attempts prev) 1) /\
+     (o_type o = T_transmitted \/ o_type o = T_failed \/ o_type o = T_inflight)) /\
+  (next_state (o_type prev) = Building -> o_type o = T_generated -> o_off o = o_off prev) /\
+  (next_state (o_type prev) = Building -> q_retry (fst r) = true -> o = prev) /\
+  (u64 max -> is_retry prev r = false -> (0 < rounds_left max prev)%N ->
+   (rounds_left max o < rounds_left max prev)%N).
+Proof. exact step_ok_sound. Qed.
+Print Assumptions C03_judge_step_sound.
+
+(* the clause vocabulary is that of the theorems: at the model's outcome edge_P is the statement of C03_edges, and
+   on the model's own history recovery_P is the statement of C03_recovery *)
+Theorem C03_judge_clauses_are_the_theorems : forall max n prev,
+  (forall q co,
+     edge_P prev q co (get_outcome max n prev q co) =
+     (let st := next_state (o_type prev) in
+      let o := get_outcome max n prev q co in
+      let st' := next_state (o_type o) in
+      match st with
+      | Selecting =>
+          (exists c, co = Some c /\ o_type o = T_selected /\ st' = Building) \/
+          (co = None /\ o = empty_outcome /\ st' = Selecting)
+      | Building =>
+          (q_retry q = true /\ o = prev /\ st' = Building) \/
+          (q_retry q = false /\
+           ((o = empty_outcome /\ st' = Selecting) \/
+            (o_type o = T_empty /\ st' = Selecting) \/
+            (o_type o = T_generated /\ st' = Waiting /\ co <> None)))
+      | Waiting =>
+          (o = empty_outcome /\ co = None /\ st' = Selecting) \/
+          (o_type o = T_transmitted /\ st' = Selecting) \/
+          (o_type o = T_failed /\ st' = Selecting) \/
+          (o_type o = T_inflight /\ st' = Waiting)
+      end)) /\
+  (forall rs,
+     recovery_P max prev rs (hist_model (max, n, prev, rs)) <->
+     ((max + 2 <= eff_count max n prev rs)%N ->
+      exists k, (k <= length rs)%nat /\
+        (eff_count max n prev (firstn k rs) <= max + 2)%N /\
+        next_state (o_type (run max n prev (firstn k rs))) = Selecting)).
+Proof. exact (fun max n prev => conj (fun q co => eq_refl) (recovery_P_at_model max n prev)). Qed.
+Print Assumptions C03_judge_clauses_are_the_theorems.
+
+(* sink C03_hist, the history. An ARBITRARY list of outcomes that passes hist_ok has one outcome per round, every
+   round legal in the sense above taken with the outcome that precedes it (legal_hist), and satisfies the clause of
+   C03_recovery along the implementation's own trajectory: once max+2 non-retry rounds have happened the machine has
+   been in the selecting state after at most max+2 of them. *)
+Theorem C03_judge_hist_sound : forall max n prev rs os,
+  hist_ok (max, n, prev, rs) os = true ->
+  length os = length rs /\
+  legal_hist max prev rs os /\
+  ((max + 2 <= eff_count_tr prev rs os)%N ->
+   exists k, (k <= length rs)%nat /\
+     (eff_count_tr prev (firstn k rs) (firstn k os) <= max + 2)%N /\
+     next_state (o_type (final prev (firstn k os))) = Selecting).
+Proof. exact (fun max n prev rs os => hist_ok_sound (max, n, prev, rs) os). Qed.
+Print Assumptions C03_judge_hist_sound.
+
+(* the model's own history passes (max is a Go uint, as in C03_recovery), round by round without any premise *)
+Theorem C03_judge_hist_model_passes : forall max n prev rs,
+  u64 max -> hist_ok (max, n, prev, rs) (hist_model (max, n, prev, rs)) = true.
+Proof. exact hist_model_passes. Qed.
+Print Assumptions C03_judge_hist_model_passes.
+
+Theorem C03_judge_step_model_passes : forall max n prev r, step_ok max prev r (run_step max n prev r) = true.
+Proof. exact step_model_passes. Qed.
+Print Assumptions C03_judge_step_model_passes.
